@@ -219,6 +219,9 @@ func groupByDate(hashProvider func(klog.Date) period.Hash, rs []klog.Record) (ma
 	return days, order
 }
 
+// maxBarBlocks is the maximum length of a bar in the chart.
+const maxBarBlocks = 1000
+
 func renderBar(minutesPerUnit int, d klog.Duration) string {
 	block := "▇"
 	blocksCount := func() int {
@@ -226,7 +229,13 @@ func renderBar(minutesPerUnit int, d klog.Duration) string {
 		if mins <= 0 {
 			return 0
 		}
-		return int(math.Ceil(float64(mins) / float64(minutesPerUnit)))
+		count := math.Ceil(float64(mins) / float64(minutesPerUnit))
+		if count > maxBarBlocks {
+			// Cap the bar, so that absurdly large totals don’t produce
+			// gigantic output (or overflow the length of a string).
+			return maxBarBlocks
+		}
+		return int(count)
 	}()
 	return strings.Repeat(block, blocksCount)
 }
